@@ -90,6 +90,9 @@ func NewReplay(entries []Entry) *Tape {
 
 func (t *Tape) Replaying() bool { return t.replay != nil }
 
+// ReplayEntries returns the decisions being replayed (nil in record mode).
+func (t *Tape) ReplayEntries() []Entry { return t.replay }
+
 // Choice returns a value in [0,n). n<=1 draws nothing and returns 0.
 func (t *Tape) Choice(n int, label string) int {
 	if n <= 1 {
